@@ -26,6 +26,10 @@ def gate(ctx, idx, rule, fi, err, protected, con_suffix, test_ok=None, what=""):
         return None
     tests = [t for t in cfg.find("test") if any(cfg.dominates(t, r) for r in rz) and t in cfg.reachable()]
     tests = [t for t in tests if not t.meta.get("in_comp")]
+    # a test on the way that does not DECIDE the raise (`x[0] if x else None` while the message is put together: both outcomes go on
+    # to the raise) is not the gate
+    deciding = [t for t in tests if not all(any(r in cfg.reachable([m], avoid={t}) or r is m for r in rz) for m, _l in t.succ)]
+    tests = deciding or tests
     if not tests:
         ctx.violate(rule, con, K.rel(fi), rz[0].line, "%s is raised unconditionally" % err)
         return None
